@@ -299,6 +299,10 @@ pub fn generate(seed: u64, scale: usize) -> Cases {
         vec![(0, b"".to_vec())],
         vec![(-3, b"a".to_vec()), (-1, b"b".to_vec()), (-2, b"c".to_vec())],
         vec![(0, b"".to_vec()), (-5, b"zz".to_vec()), (0, b"".to_vec())],
+        // the least item there is: the smallest seq with the empty value, alone and from several holders
+        vec![(i64::MIN, b"".to_vec())],
+        vec![(i64::MIN, b"".to_vec()), (i64::MIN, b"".to_vec()), (i64::MIN, b"".to_vec())],
+        vec![(i64::MIN, b"".to_vec()), (i64::MIN, b"\x00".to_vec())],
     ];
     for p in low.iter() {
         for a in [false, true] {
